@@ -159,7 +159,7 @@ def check(run):
         "the three buffer-size literals are read from event_dispatcher_linux.go by pattern; the theorems hold for every value"]
 
     def search():
-        cs, e = run_harness(150, 4, run.seed + 7919, "search")
+        cs, e = run_harness(150, 4, run.seed + (1 << 50), "search")  # far away in the PRNG stream (seeds d apart = streams shifted by d draws)
         return oracle_failures(cs)
     return run.finish(search)
 
